@@ -66,7 +66,7 @@ theorem taskOrigin_create (s : Sys) (jo : JobObj) (rj : Job) (c : Call) (ho : Ta
     rw [e.newCalls] at h
     rw [(hall c h).1] at hv; simp at hv
   | kill s1 rj1 tasks1 s' rj' l _ _ _ _ h =>
-    obtain ⟨l', e, _, hall, _⟩ := handleKillJob_ext s' rj' tasks1
+    obtain ⟨l', e, _, hall, _⟩ := handleKillJob_ext s' jo rj' tasks1
     rw [e.newCalls] at h
     rw [(hall c h).1] at hv; simp at hv
   | force s1 rj1 tasks1 s' rj' l _ _ _ _ h =>
@@ -87,7 +87,7 @@ theorem taskOrigin_verb (s : Sys) (jo : JobObj) (rj : Job) (c : Call) (ho : Task
     rw [e.newCalls] at h
     exact ⟨(hall c h).2.1, Or.inr (hall c h).1⟩
   | kill s1 rj1 tasks1 s' rj' l _ _ _ _ h =>
-    obtain ⟨l', e, _, hall, _⟩ := handleKillJob_ext s' rj' tasks1
+    obtain ⟨l', e, _, hall, _⟩ := handleKillJob_ext s' jo rj' tasks1
     rw [e.newCalls] at h
     exact ⟨(hall c h).2.1, Or.inr (hall c h).1⟩
   | force s1 rj1 tasks1 s' rj' l _ _ _ _ h =>
@@ -115,7 +115,7 @@ theorem taskOrigin_delete (s : Sys) (jo : JobObj) (rj : Job) (c : Call) (ho : Ta
       exact (getPendingTimeout_congr (hss.template.trans hle.template) _).symm
     · rw [← hext.clock]; exact hd
   | kill s1 rj1 tasks1 s' rj' l hcr hext hle hss h =>
-    obtain ⟨l', e, _, hall, _⟩ := handleKillJob_ext s' rj' tasks1
+    obtain ⟨l', e, _, hall, _⟩ := handleKillJob_ext s' jo rj' tasks1
     rw [e.newCalls] at h
     obtain ⟨_, hr, hf, hk, t, ht, hn, hfin, hdt⟩ := hall c h
     exact ⟨hr, s1, rj1, tasks1, hcr, hle, t, ht, hn, .kill rj' hf hfin hdt hss (by rw [← hext.clock]; exact hk)⟩
